@@ -82,12 +82,60 @@ package keeper
 //@   modifies bigv
 //@   ensures [stake-bin] result.i != nil && bigv[result.i] == scaled(old(bigv[multiplier.i]), old(bigv[relays.i]), weightOf(binOf(old(bigv[stake.i]), nFloor(ctx), nCeil(ctx)), nExp(ctx), nWM(ctx)))
 
-// call event: the amount simpleSlash was asked to burn
+// ---- C25: slashing ---------------------------------------------------------------------------
+// call events of the primitives simpleSlash is built from
 //@ ghost slashReq int
-//@ func (Keeper).simpleSlash
-//@   trusted call event only (records the requested amount; the slash itself is under contract in C25)
-//@   modifies all
+//@ ghost removeN int
+//@ ghost removedAmt int
+//@ ghost burnN int
+//@ ghost burnedAmt int
+//@ ghost forceN int
+
+//@ func (Keeper).validateSimpleSlash
+//@   trusted record lookup + call event: records the requested amount; returns the zero record (empty address) or the stored record of addr
+//@   modifies slashReq, bigv
 //@   ensures slashReq == old(bigv[amount.i])
+//@   ensures len(result.Address) == 0 || (old(bigv[amount.i]) > 0 && valHas[bytes(addr)] && bytes(result.Address) == bytes(addr) && result.StakedTokens.i != nil && bigv[result.StakedTokens.i] == valStake[bytes(addr)] && valStake[bytes(addr)] >= 0)
+//@   ensures forall p int {bigv[p]} :: isold(p) ==> bigv[p] == old(bigv[p])
+
+//@ func (Keeper).removeValidatorTokens
+//@   trusted call event: removes tokens from the record (index maintenance under C21)
+//@   modifies removeN, removedAmt, bigv
+//@   ensures removeN == old(removeN) + 1 && removedAmt == old(bigv[tokensToRemove.i])
+//@   ensures result1 == nil ==> result0.StakedTokens.i != nil && bigv[result0.StakedTokens.i] == old(bigv[v.StakedTokens.i]) - old(bigv[tokensToRemove.i]) && result0.Address == v.Address
+//@   ensures forall p int {bigv[p]} :: isold(p) ==> bigv[p] == old(bigv[p])
+
+//@ func (Keeper).burnStakedTokens
+//@   trusted call event: burns coins from the staking pool (bank effects under C17/C19)
+//@   modifies burnN, burnedAmt
+//@   ensures result == nil ==> burnN == old(burnN) + 1 && burnedAmt == old(bigv[amt.i])
+//@   ensures result != nil ==> burnN == old(burnN)
+
+//@ func (Keeper).ForceValidatorUnstake
+//@   trusted call event: jails the node and queues it to unstake
+//@   modifies forceN
+//@   ensures forceN == old(forceN) + 1
+//@ func (Keeper).LegacyForceValidatorUnstake
+//@   trusted call event: force-unstakes the node
+//@   modifies forceN
+//@   ensures forceN == old(forceN) + 1
+
+//@ func (Keeper).Logger
+//@   trusted logger accessor
+//@   pure_fn
+//@   ensures result != nil
+
+// simpleSlash: removes min(amount, stake) (never negative) from the record, burns exactly what
+// was removed, and force-unstakes (jail + queue) a node left below the minimum stake.
+//@ func (Keeper).simpleSlash
+//@   props C25
+//@   modifies all
+//@   ensures [request] slashReq == old(bigv[amount.i])
+//@   ensures [at-most-stake] removeN != old(removeN) ==> removeN == old(removeN) + 1 && removedAmt == max(0, min(old(bigv[amount.i]), old(valStake[bytes(addr)]))) && removedAmt <= old(valStake[bytes(addr)]) && removedAmt >= 0
+//@   ensures [burn-equals-removed] burnN != old(burnN) ==> burnN == old(burnN) + 1 && removeN == old(removeN) + 1 && burnedAmt == removedAmt
+//@   ensures [no-burn-without-remove] removeN == old(removeN) ==> burnN == old(burnN)
+//@   ensures [below-minimum-forced] burnN != old(burnN) && old(valStake[bytes(addr)]) - removedAmt < nMinStake(ctx) ==> forceN == old(forceN) + 1
+//@   ensures [no-force-otherwise] forceN != old(forceN) ==> burnN != old(burnN) && old(valStake[bytes(addr)]) - removedAmt < nMinStake(ctx)
 
 //@ func (Keeper).BurnForChallenge
 //@   props C27
